@@ -17,14 +17,22 @@ Expected(r) == TLCGet(2)[r.p].expected
 IsPrefix(a, b) == Len(a) <= Len(b) /\ SubSeq(b, 1, Len(a)) = a
 \* walk the calls, tracking how many bytes the sink has received; each accepted chunk must be the next bytes of the
 \* expected stream (so the received stream stays a prefix of it: FMLSink.PrefixInv).  Returns the first offending call (0 = none).
+\* (two-level recursion: TLC's cost of one deep recursion grows quadratically with its depth, so the calls are walked in
+\* blocks of 128)
+RECURSIVE WalkTo(_,_,_,_,_)
+WalkTo(calls, j, last, dlen, expected) ==
+  IF j > last THEN [bad |-> 0, dlen |-> dlen]
+  ELSE LET c == calls[j] IN
+       IF c.acc <= 0 THEN WalkTo(calls, j + 1, last, dlen, expected)
+       ELSE IF c.acc > c.len \/ Len(c.req) # c.acc \/ dlen + c.acc > Len(expected) \/ SubSeq(expected, dlen + 1, dlen + c.acc) # c.req
+            THEN [bad |-> j, dlen |-> dlen]
+            ELSE WalkTo(calls, j + 1, last, dlen + c.acc, expected)
 RECURSIVE Walk(_,_,_,_)
 Walk(calls, j, dlen, expected) ==
   IF j > Len(calls) THEN [bad |-> 0, dlen |-> dlen]
-  ELSE LET c == calls[j] IN
-       IF c.acc <= 0 THEN Walk(calls, j + 1, dlen, expected)
-       ELSE IF c.acc > c.len \/ Len(c.req) # c.acc \/ dlen + c.acc > Len(expected) \/ SubSeq(expected, dlen + 1, dlen + c.acc) # c.req
-            THEN [bad |-> j, dlen |-> dlen]
-            ELSE Walk(calls, j + 1, dlen + c.acc, expected)
+  ELSE LET last == IF j + 127 < Len(calls) THEN j + 127 ELSE Len(calls)
+           w == WalkTo(calls, j, last, dlen, expected) IN
+       IF w.bad # 0 THEN w ELSE Walk(calls, last + 1, w.dlen, expected)
 SinkFaulted(calls) == \E j \in 1..Len(calls) : calls[j].acc \in {0, -2}
 Judge(r) ==
   LET w == Walk(r.calls, 1, 0, Expected(r)) IN
